@@ -7,6 +7,7 @@ import (
 	"sort"
 	"strings"
 	"sync"
+	"sync/atomic"
 	"testing"
 	"time"
 
@@ -23,7 +24,8 @@ import (
 type c10Conc struct {
 	Subject subjectKind `json:"subject"`
 	Threads [][]sop     `json:"threads"`
-	Pre     []sop       `json:"prefix"` // executed sequentially before the threads start
+	Pre     []sop       `json:"prefix"`           // executed sequentially before the threads start
+	Post    []sop       `json:"suffix,omitempty"` // executed sequentially after every thread has finished (late subscribers)
 	Reps    int         `json:"reps"`
 	DwellUs int         `json:"dwell_us"`
 }
@@ -220,12 +222,18 @@ func c10RunConc(t rt.TB, c c10Conc) {
 			do(0, o)
 		}
 		var wg sync.WaitGroup
+		var ready int32
 		start := make(chan struct{})
 		for ti, th := range c.Threads {
 			wg.Add(1)
 			go func(ti int, th []sop) {
 				defer wg.Done()
 				<-start
+				// spin barrier: the threads leave within nanoseconds of each other (the
+				// windows of interest are a few instructions wide)
+				atomic.AddInt32(&ready, 1)
+				for spins := 0; atomic.LoadInt32(&ready) < int32(len(c.Threads)) && spins < 2000000; spins++ {
+				}
 				for _, o := range th {
 					do(ti+1, o)
 				}
@@ -233,6 +241,9 @@ func c10RunConc(t rt.TB, c c10Conc) {
 		}
 		close(start)
 		wg.Wait()
+		for _, o := range c.Post {
+			do(0, o)
+		}
 		// quiescence: every call has returned; read every subscriber's log
 		for id, r := range recs {
 			call := rt.Tick()
@@ -401,4 +412,35 @@ func c10PerSubscriberOK(pm porcupine.Model, history []porcupine.Operation, logs 
 		}
 	}
 	return true
+}
+
+// TestC10_TerminalRaces: the narrowest window of a subject - a publication racing
+// with the terminal call - followed by a LATE subscriber, which sees what the
+// subject has stored: every subscriber, early or late, must be explained by one
+// order of the racing calls.
+func TestC10_TerminalRaces(t *testing.T) {
+	reps := 1500
+	if rt.Thorough() {
+		reps = 40000
+	}
+	reps = reps/rt.ShardCount() + 1
+	idx := 0
+	for _, k := range subjectKinds {
+		for _, threads := range [][][]sop{
+			{{{K: 'N', V: 2}}, {{K: 'C'}}},
+			{{{K: 'N', V: 2}}, {{K: 'E'}}},
+			{{{K: 'N', V: 2}, {K: 'N', V: 3}}, {{K: 'C'}}},
+			{{{K: 'N', V: 2}}, {{K: 'C'}}, {{K: 'E'}}},
+			{{{K: 'N', V: 2}}, {{K: 'N', V: 3}}, {{K: 'C'}}},
+		} {
+			idx++
+			pre := []sop{{K: 'S', Id: 0}, {K: 'N', V: 1}}
+			if k.Kind == "unicast" {
+				pre = []sop{{K: 'N', V: 1}}
+			}
+			c := c10Conc{Subject: k, Pre: pre, Threads: threads, Post: []sop{{K: 'S', Id: 7}, {K: 'S', Id: 8}}, Reps: reps}
+			c10RunConc(t, c)
+			rt.Case(caseKey("termrace", k, threadsString(threads)), true, "terminal-race:"+k.Kind, func() any { return c })
+		}
+	}
 }
